@@ -250,3 +250,344 @@ Proof.
     + apply (placed_ext s); [solve_cnt ..| apply (i_placed _ I)].
   - intros j x. unfold mv_wake_same. apply (waits_ext s); [solve_cnt ..| apply (i_waits _ I)].
 Qed.
+
+(* generic shape of the "changed thread" case: unfold `placed` for thread t on vCPU y *)
+Ltac open_placed I t y :=
+  generalize (i_placed _ I t y); unfold placed, live, place_ok; simp_st; rewrite ?Nat.eqb_refl;
+  cbn [th_state th_vcpu th_insleep set_th_state set_th_vcpu set_th_insleep set_th_err set_th_ts set_th_waitq
+       set_th_lock set_th_retval set_g_finished set_th_fresh set_g_started set_th_joiners].
+
+(* E2: a SLEEPING thread becomes STANDBY in the standby queue of its vCPU (cross-vCPU wake-up) *)
+Definition mv_wake_cross (s : state) (u : nat) (t : tid) : state :=
+  modvc (modth s t (fun th => set_th_state th STANDBY)) u (fun x => set_v_standby x (v_standby x ++ [t])).
+
+Lemma inv1_wake_cross : forall s u t, Inv1 s ->
+  th_state (s_th s t) = SLEEPING -> th_vcpu (s_th s t) = u -> th_waitq (s_th s t) = None ->
+  Inv1 (mv_wake_cross s u t).
+Proof.
+  intros s u t I Es Ev Ew.
+  destruct (sleeping_facts s t (i_placed _ I t) Es) as (f1 & f2 & f3 & f4). rewrite Ev in *.
+  constructor.
+  - intros x y. unfold mv_wake_cross.
+    destruct (Nat.eq_dec x t) as [->|Nx].
+    + open_placed I t y. rewrite Es, Ev, f1. cbn.
+      destruct (Nat.eqb u y) eqn:Euy; neq_tac.
+      * subst y. rewrite Nat.eqb_refl. cnt_norm. lia.
+      * eqb_false y u. auto.
+    + apply (placed_ext s); [solve_cnt ..| apply (i_placed _ I)].
+  - intros j x. unfold mv_wake_cross. apply (waits_ext s); [solve_cnt ..| apply (i_waits _ I)].
+Qed.
+
+(* E4: switch_in: a thread of the run queue becomes RUNNING *)
+Lemma inv1_switch_in : forall s v n, Inv1 s -> cnt n (v_runq (s_vc s v)) >= 1 -> Inv1 (switch_in s n).
+Proof.
+  intros s v n I Hn.
+  destruct (in_runq_facts s n v (i_placed _ I n v) Hn) as (l1 & l2 & l3 & l4 & l5 & l6 & l7).
+  assert (Hw : th_waitq (s_th s n) = None).
+  { destruct (th_waitq (s_th s n)) eqn:E; auto.
+    destruct (i_waits _ I n 0) as [_ W]. rewrite E in W. specialize (W ltac:(discriminate)).
+    destruct l7 as [l7|[l7|l7]]; congruence. }
+  constructor.
+  - intros x y. unfold switch_in.
+    destruct (Nat.eq_dec x n) as [->|Nx].
+    + generalize (i_placed _ I n y). unfold placed, live, place_ok. simp_st. rewrite Nat.eqb_refl.
+      destruct (th_fresh (s_th s n)); cbn; rewrite l3, l2;
+        destruct l7 as [l7|[l7|l7]]; rewrite l7; cbn;
+        (destruct (Nat.eqb v y) eqn:Evy; [apply Nat.eqb_eq in Evy; subst y|]; auto; lia).
+    + apply (placed_ext s); [solve_cnt ..| apply (i_placed _ I)].
+  - intros j x. unfold switch_in. apply (waits_ext s); simp_st.
+    + destruct (Nat.eqb x n) eqn:E; auto. neq_tac. subst x. destruct (th_fresh (s_th s n)); reflexivity.
+    + destruct (Nat.eqb j n) eqn:E; auto. neq_tac. subst j. destruct (th_fresh (s_th s n)); reflexivity.
+    + destruct (Nat.eqb j n) eqn:E; auto. neq_tac. subst j. congruence.
+    + apply (i_waits _ I).
+Qed.
+
+Lemma switch_in_vc : forall s n, s_vc (switch_in s n) = s_vc s. Proof. reflexivity. Qed.
+Lemma switch_in_other : forall s n x, x <> n -> s_th (switch_in s n) x = s_th s x.
+Proof. intros. unfold switch_in. simp_st. apply Nat.eqb_neq in H. now rewrite H. Qed.
+Lemma switch_in_state : forall s n, th_state (s_th (switch_in s n) n) = RUNNING.
+Proof. intros. unfold switch_in. simp_st. rewrite Nat.eqb_refl. destruct (th_fresh (s_th s n)); reflexivity. Qed.
+
+(* E3: the head of the run queue (RUNNING) goes to the tail as READY *)
+Lemma inv1_rotate : forall s v c rest f, Inv1 s ->
+  v_runq (s_vc s v) = c :: rest -> th_state (s_th s c) = RUNNING ->
+  (forall th, th_vcpu (f th) = th_vcpu th /\ th_insleep (f th) = th_insleep th /\
+              th_waitq (f th) = th_waitq th /\ th_joiners (f th) = th_joiners th /\ th_state (f th) = READY) ->
+  forall p, Inv1 (modvc (modth s c f) v (fun x => set_v_pend (set_v_runq x (rest ++ [c])) p)).
+Proof.
+  intros s v c rest f I Hq Es Hf p.
+  assert (Hc : cnt c (v_runq (s_vc s v)) >= 1) by (rewrite Hq; apply cnt_head).
+  destruct (in_runq_facts s c v (i_placed _ I c v) Hc) as (l1 & l2 & l3 & l4 & l5 & l6 & l7).
+  destruct (Hf (s_th s c)) as (h1 & h2 & h3 & h4 & h5).
+  constructor.
+  - intros x y.
+    destruct (Nat.eq_dec x c) as [->|Nx].
+    + generalize (i_placed _ I c y). unfold placed, live, place_ok. simp_st. rewrite Nat.eqb_refl.
+      rewrite h1, h2, h5, Es, l3, l2. cbn.
+      destruct (Nat.eqb v y) eqn:Evy; neq_tac.
+      * subst y. rewrite Nat.eqb_refl. cbn. rewrite Hq. cnt_norm. lia.
+      * eqb_false y v. auto.
+    + apply (placed_ext s); [solve_cnt ..| apply (i_placed _ I)].
+      rewrite Hq. cnt_norm. split_eqb; try congruence; lia.
+  - intros j x. apply (waits_ext s); simp_st.
+    + destruct (Nat.eqb x c) eqn:E; auto. neq_tac. subst. auto.
+    + destruct (Nat.eqb j c) eqn:E; auto. neq_tac. subst. auto.
+    + destruct (Nat.eqb j c) eqn:E; auto. neq_tac. subst j. intro N.
+      destruct (i_waits _ I c 0) as [_ W]. specialize (W N). congruence.
+    + apply (i_waits _ I).
+Qed.
+
+Lemma running_no_waitq : forall s c, Inv1 s -> th_state (s_th s c) = RUNNING -> th_waitq (s_th s c) = None.
+Proof.
+  intros s c I E. destruct (th_waitq (s_th s c)) eqn:W; auto.
+  destruct (i_waits _ I c 0) as [_ H]. rewrite W in H. specialize (H ltac:(discriminate)). congruence.
+Qed.
+
+(* E5: the head of the run queue goes to sleep (optionally into the wait queue of thread x) *)
+Lemma inv1_sleep : forall s v c rest exp wq ts p, Inv1 s ->
+  v_runq (s_vc s v) = c :: rest -> th_state (s_th s c) = RUNNING ->
+  let s2 := modth s c (fun th => set_th_waitq (set_th_ts (set_th_insleep (set_th_state th SLEEPING) true) exp) wq) in
+  let s3 := match wq with Some x => modth s2 x (fun th => set_th_joiners th (th_joiners th ++ [c])) | None => s2 end in
+  Inv1 (modvc s3 v (fun x => set_v_pend (set_v_sleepq (set_v_runq x rest) (ins_sorted ts c (v_sleepq x))) p)).
+Proof.
+  intros s v c rest exp wq ts p I Hq Es s2 s3.
+  assert (Hc : cnt c (v_runq (s_vc s v)) >= 1) by (rewrite Hq; apply cnt_head).
+  destruct (in_runq_facts s c v (i_placed _ I c v) Hc) as (l1 & l2 & l3 & l4 & l5 & l6 & l7).
+  pose proof (running_no_waitq s c I Es) as Hw.
+  assert (Hr : cnt c rest = 0). { rewrite Hq, cnt_cons, Nat.eqb_refl in l4. lia. }
+  assert (T3 : forall x, th_state (s_th s3 x) = (if Nat.eqb x c then SLEEPING else th_state (s_th s x)) /\
+                         th_vcpu (s_th s3 x) = th_vcpu (s_th s x) /\
+                         th_insleep (s_th s3 x) = (if Nat.eqb x c then true else th_insleep (s_th s x)) /\
+                         th_waitq (s_th s3 x) = (if Nat.eqb x c then wq else th_waitq (s_th s x))).
+  { intro x. unfold s3, s2. destruct wq as [w|]; simp_st;
+      repeat match goal with |- context[Nat.eqb ?a ?b] => destruct (Nat.eqb a b) eqn:? end; neq_tac; subst;
+      rewrite ?Nat.eqb_refl; cbn; auto; try congruence.
+ }
+  assert (V3 : s_vc s3 = s_vc s). { unfold s3, s2. destruct wq; reflexivity. }
+  constructor.
+  - intros x y. generalize (i_placed _ I x y). unfold placed, live, place_ok. simp_st. rewrite V3.
+    destruct (T3 x) as (t1 & t2 & t3 & t4). rewrite t1, t2, t3.
+    destruct (Nat.eqb x c) eqn:Exc; neq_tac.
+    + subst x. rewrite Es, l3, l2. cbn.
+      destruct (Nat.eqb v y) eqn:Evy; neq_tac.
+      * subst y. rewrite Nat.eqb_refl. cnt_norm. rewrite Hr. lia.
+      * eqb_false y v. auto.
+    + destruct (Nat.eqb y v) eqn:Eyv; neq_tac; auto. subst y. cnt_norm. rewrite Hq. cnt_norm.
+      eqb_false c x. cbn. auto.
+  - intros j x. generalize (i_waits _ I j x). unfold waits. simp_st.
+    destruct (T3 j) as (t1 & t2 & t3 & t4). rewrite t1, t4.
+    assert (J : th_joiners (s_th s3 x) =
+                (if opt_eqb wq x then th_joiners (s_th s x) ++ [c] else th_joiners (s_th s x))).
+    { unfold s3, s2. destruct wq as [w|]; simp_st; cbn [opt_eqb];
+        repeat match goal with |- context[Nat.eqb ?a ?b] => destruct (Nat.eqb a b) eqn:? end; neq_tac; subst;
+        rewrite ?Nat.eqb_refl; cbn; auto; try congruence. }
+    rewrite J.
+    destruct (Nat.eqb j c) eqn:Ejc; neq_tac.
+    + subst j. rewrite Hw. cbn [opt_eqb]. intros [A _]. split; [|auto].
+      destruct (opt_eqb wq x); cnt_norm; lia.
+    + intros [A B]. split; auto.
+      destruct (opt_eqb wq x); auto. cnt_norm. eqb_false c j. lia.
+Qed.
+
+(* E6: the head of the run queue dies *)
+Lemma inv1_die : forall s v c rest f p nt, Inv1 s ->
+  v_runq (s_vc s v) = c :: rest -> th_state (s_th s c) = RUNNING ->
+  (forall th, th_waitq (f th) = th_waitq th /\ th_joiners (f th) = th_joiners th /\ th_state (f th) = DONE) ->
+  Inv1 (modvc (modth s c f) v (fun x => set_v_pend (set_v_nthreads (set_v_runq x (remove_tid c (v_runq x))) (nt x)) p)).
+Proof.
+  intros s v c rest f p nt I Hq Es Hf.
+  assert (Hc : cnt c (v_runq (s_vc s v)) >= 1) by (rewrite Hq; apply cnt_head).
+  destruct (in_runq_facts s c v (i_placed _ I c v) Hc) as (l1 & l2 & l3 & l4 & l5 & l6 & l7).
+  pose proof (running_no_waitq s c I Es) as Hw.
+  destruct (Hf (s_th s c)) as (h1 & h2 & h3).
+  constructor.
+  - intros x y.
+    destruct (Nat.eq_dec x c) as [->|Nx].
+    + generalize (i_placed _ I c y). unfold placed, live, place_ok. simp_st. rewrite Nat.eqb_refl, h3.
+      cbn. destruct (Nat.eqb y v) eqn:Eyv; neq_tac.
+      * subst y. cnt_norm. rewrite l4, l5, l6. auto.
+      * rewrite Es, l2. cbn. eqb_false v y. cbn. auto.
+    + apply (placed_ext s); [solve_cnt ..| apply (i_placed _ I)].
+  - intros j x. apply (waits_ext s); simp_st.
+    + destruct (Nat.eqb x c) eqn:E; auto. neq_tac. subst. auto.
+    + destruct (Nat.eqb j c) eqn:E; auto. neq_tac. subst. auto.
+    + destruct (Nat.eqb j c) eqn:E; auto. neq_tac. subst j. congruence.
+    + apply (i_waits _ I).
+Qed.
+
+(* a thread that does not exist (any more) is in no queue and nobody waits in its queue *)
+Lemma dead_facts : forall s t v, placed s t v -> live (s_th s t) = false ->
+  cnt t (v_runq (s_vc s v)) = 0 /\ cnt t (v_sleepq (s_vc s v)) = 0 /\ cnt t (v_standby (s_vc s v)) = 0.
+Proof. unfold placed. intros s t v P L. rewrite L in P. cbn in P. auto. Qed.
+
+(* E7: thread_create *)
+Lemma inv1_create : forall s v k th nt, Inv1 s ->
+  th_state (s_th s k) = NOTCREATED ->
+  th_state th = READY -> th_vcpu th = v -> th_insleep th = false -> th_waitq th = None ->
+  th_joiners th = th_joiners (s_th s k) ->
+  Inv1 (modvc (set_s_th s (updp (s_th s) k th)) v (fun x => set_v_nthreads (set_v_runq x (v_runq x ++ [k])) (nt x))).
+Proof.
+  intros s v k th nt I En h1 h2 h3 h4 h5.
+  assert (L : live (s_th s k) = false) by (unfold live; rewrite En; reflexivity).
+  assert (Hw : th_waitq (s_th s k) = None).
+  { destruct (th_waitq (s_th s k)) eqn:W; auto. destruct (i_waits _ I k 0) as [_ H]. rewrite W in H.
+    specialize (H ltac:(discriminate)). congruence. }
+  constructor.
+  - intros x y. destruct (Nat.eq_dec x k) as [->|Nx].
+    + destruct (dead_facts s k y (i_placed _ I k y) L) as (d1 & d2 & d3).
+      unfold placed, live, place_ok. simp_st. cbn [s_th set_s_th]. rewrite updp_eq, h1, h2, h3. cbn.
+      destruct (Nat.eqb v y) eqn:Evy; neq_tac.
+      * subst y. rewrite Nat.eqb_refl. cnt_norm. lia.
+      * eqb_false y v. auto.
+    + apply (placed_ext s); [ | solve_cnt .. | apply (i_placed _ I)].
+      simp_st. cbn [s_th set_s_th]. now rewrite updp_neq.
+  - intros j x. generalize (i_waits _ I j x). unfold waits. simp_st. cbn [s_th set_s_th]. unfold updp.
+    destruct (Nat.eqb x k) eqn:Ex; destruct (Nat.eqb j k) eqn:Ej; neq_tac; subst; rewrite ?h1, ?h4, ?h5, ?Hw; auto;
+      intros [A B]; split; auto; intro N; exfalso; apply N; reflexivity.
+Qed.
+
+(* E8: do_thread_migrate: a READY thread of v's run queue goes to u's standby queue *)
+Lemma inv1_migrate : forall s v u t ntv ntu, Inv1 s -> u <> v ->
+  cnt t (v_runq (s_vc s v)) >= 1 -> th_state (s_th s t) = READY ->
+  Inv1 (modvc (modvc (modth s t (fun x => set_th_vcpu (set_th_state x STANDBY) u)) v
+                 (fun x => set_v_nthreads (set_v_runq x (remove_tid t (v_runq x))) (ntv x))) u
+              (fun x => set_v_nthreads (set_v_standby x (v_standby x ++ [t])) (ntu x))).
+Proof.
+  intros s v u t ntv ntu I Nuv Hc Es.
+  destruct (in_runq_facts s t v (i_placed _ I t v) Hc) as (l1 & l2 & l3 & l4 & l5 & l6 & l7).
+  assert (Hw : th_waitq (s_th s t) = None).
+  { destruct (th_waitq (s_th s t)) eqn:W; auto. destruct (i_waits _ I t 0) as [_ H]. rewrite W in H.
+    specialize (H ltac:(discriminate)). congruence. }
+  constructor.
+  - intros x y. destruct (Nat.eq_dec x t) as [->|Nx].
+    + generalize (i_placed _ I t y). unfold placed, live, place_ok. simp_st. rewrite Nat.eqb_refl.
+      cbn. rewrite Es, l2, l3. cbn.
+      destruct (Nat.eqb y u) eqn:Eyu; neq_tac.
+      * subst y. rewrite Nat.eqb_refl. eqb_false v u. eqb_false u v. cbn. cnt_norm. intros (a & b & c). lia.
+      * eqb_false u y. destruct (Nat.eqb y v) eqn:Eyv; neq_tac.
+        -- subst y. rewrite Nat.eqb_refl. cbn. cnt_norm. lia.
+        -- eqb_false v y. cbn. auto.
+    + apply (placed_ext s); [solve_cnt ..| apply (i_placed _ I)].
+  - intros j x. apply (waits_ext s); simp_st.
+    + destruct (Nat.eqb x t) eqn:E; auto. neq_tac. subst. auto.
+    + destruct (Nat.eqb j t) eqn:E; auto. neq_tac. subst. auto.
+    + destruct (Nat.eqb j t) eqn:E; auto. neq_tac. subst j. congruence.
+    + apply (i_waits _ I).
+Qed.
+
+(* E9: one thread of the standby queue is resumed by its vCPU *)
+Lemma inv1_drain_one : forall s v t, Inv1 s -> Inv1 (drain_one s v t).
+Proof.
+  intros s v t I. unfold drain_one, getvc.
+  destruct (mem_tid t (v_standby (s_vc s v))) eqn:M; cbn [negb]; auto.
+  apply mem_cnt in M.
+  destruct (in_standby_facts s t v (i_placed _ I t v) M) as (l1 & l2 & l3 & l4 & l5 & l6).
+  assert (Hw : th_waitq (s_th s t) = None).
+  { destruct (th_waitq (s_th s t)) eqn:W; auto. destruct (i_waits _ I t 0) as [_ H]. rewrite W in H.
+    specialize (H ltac:(discriminate)). congruence. }
+  constructor.
+  - intros x y. destruct (Nat.eq_dec x t) as [->|Nx].
+    + generalize (i_placed _ I t y). unfold placed, live, place_ok. simp_st. rewrite Nat.eqb_refl.
+      cbn. rewrite l3, l2. cbn.
+      destruct (Nat.eqb v y) eqn:Evy; neq_tac.
+      * subst y. rewrite Nat.eqb_refl. cnt_norm. rewrite l4, l5, l6.
+        destruct (th_insleep (s_th s t)); cbn; lia.
+      * eqb_false y v. auto.
+    + apply (placed_ext s); [solve_cnt ..| apply (i_placed _ I)].
+  - intros j x. apply (waits_ext s); simp_st.
+    + destruct (Nat.eqb x t) eqn:E; auto. neq_tac. subst. auto.
+    + destruct (Nat.eqb j t) eqn:E; auto. neq_tac. subst. auto.
+    + destruct (Nat.eqb j t) eqn:E; auto. neq_tac. subst j. congruence.
+    + apply (i_waits _ I).
+Qed.
+
+Lemma inv1_drain_list : forall l s v, Inv1 s -> Inv1 (drain_list s v l).
+Proof. induction l; cbn; intros; auto. apply IHl; auto. now apply inv1_drain_one. Qed.
+
+(* E10: an expired sleeper that was interrupted from another vCPU leaves the sleep queue only *)
+Lemma inv1_resume_pop : forall s v t, Inv1 s ->
+  cnt t (v_sleepq (s_vc s v)) >= 1 -> th_state (s_th s t) <> SLEEPING ->
+  Inv1 (modvc (modth s t (fun x => set_th_insleep x false)) v (fun x => set_v_sleepq x (remove_tid t (v_sleepq x)))).
+Proof.
+  intros s v t I Hc Ns.
+  destruct (in_sleepq_facts s t v (i_placed _ I t v) Hc) as (l1 & l2 & l3 & l4 & l5 & [[l6 l7]|[l6 l7]]); [congruence|].
+  constructor.
+  - intros x y. destruct (Nat.eq_dec x t) as [->|Nx].
+    + generalize (i_placed _ I t y). unfold placed, live, place_ok. simp_st. rewrite Nat.eqb_refl.
+      cbn. rewrite l6, l2, l3. cbn.
+      destruct (Nat.eqb v y) eqn:Evy; neq_tac.
+      * subst y. rewrite Nat.eqb_refl. cnt_norm. lia.
+      * eqb_false y v. auto.
+    + apply (placed_ext s); [solve_cnt ..| apply (i_placed _ I)].
+  - intros j x. apply (waits_ext s); simp_st.
+    + destruct (Nat.eqb x t) eqn:E; auto. neq_tac. subst. auto.
+    + destruct (Nat.eqb j t) eqn:E; auto. neq_tac. subst. auto.
+    + destruct (Nat.eqb j t) eqn:E; auto. neq_tac. subst j. auto.
+    + apply (i_waits _ I).
+Qed.
+
+(* E11: work stealing moves a thread that is in u's run queue (not RUNNING) or standby queue, and in no
+   sleep queue, to the tail of the thief's run queue *)
+Lemma inv1_steal : forall s v u t (from_standby : bool) ntu ntv, Inv1 s -> u <> v ->
+  th_insleep (s_th s t) = false ->
+  (if from_standby then cnt t (v_standby (s_vc s u)) >= 1
+   else cnt t (v_runq (s_vc s u)) >= 1 /\ th_state (s_th s t) <> RUNNING) ->
+  let s0 := modvc s u (fun x => if from_standby then set_v_standby x (remove_tid t (v_standby x))
+                                else set_v_runq x (remove_tid t (v_runq x))) in
+  Inv1 (modvc (modvc (modth s0 t (fun x => set_th_vcpu x v)) u (fun x => set_v_nthreads x (ntu x))) v
+              (fun x => set_v_nthreads (set_v_runq x (v_runq x ++ [t])) (ntv x))).
+Proof.
+  intros s v u t fs ntu ntv I Nuv Hi Hc s0.
+  assert (F : live (s_th s t) = true /\ th_vcpu (s_th s t) = u /\
+              cnt t (v_sleepq (s_vc s u)) = 0 /\
+              (th_state (s_th s t) = READY \/ th_state (s_th s t) = STANDBY) /\
+              (if fs then cnt t (v_standby (s_vc s u)) = 1 /\ cnt t (v_runq (s_vc s u)) = 0 /\ th_state (s_th s t) = STANDBY
+               else cnt t (v_runq (s_vc s u)) = 1 /\ cnt t (v_standby (s_vc s u)) = 0)).
+  { destruct fs.
+    - destruct (in_standby_facts s t u (i_placed _ I t u) Hc) as (l1 & l2 & l3 & l4 & l5 & l6).
+      rewrite Hi in l6. intuition.
+    - destruct Hc as [Hc Nr].
+      destruct (in_runq_facts s t u (i_placed _ I t u) Hc) as (l1 & l2 & l3 & l4 & l5 & l6 & l7).
+      intuition. }
+  destruct F as (l1 & l2 & l5 & l7 & F).
+  assert (Hw : th_waitq (s_th s t) = None).
+  { destruct (th_waitq (s_th s t)) eqn:W; auto. destruct (i_waits _ I t 0) as [_ H]. rewrite W in H.
+    specialize (H ltac:(discriminate)). destruct l7; congruence. }
+  constructor.
+  - intros x y. unfold s0. destruct (Nat.eq_dec x t) as [->|Nx].
+    + generalize (i_placed _ I t y). unfold placed, live, place_ok. simp_st. rewrite Nat.eqb_refl.
+      cbn. rewrite Hi, l2.
+      destruct (Nat.eqb y v) eqn:Eyv; neq_tac.
+      * subst y. rewrite Nat.eqb_refl. eqb_false u v. eqb_false v u. cbn.
+        destruct l7 as [l7|l7]; rewrite l7; cbn; intros (a & b & c); cnt_norm; lia.
+      * eqb_false v y. destruct (Nat.eqb y u) eqn:Eyu; neq_tac.
+        -- subst y. rewrite Nat.eqb_refl. cbn.
+           destruct l7 as [l7|l7]; rewrite l7; cbn; intros _; destruct fs; cnt_norm; intuition lia.
+        -- eqb_false u y. destruct l7 as [l7|l7]; rewrite l7; cbn; auto.
+    + apply (placed_ext s); [ | | | | apply (i_placed _ I)]; simp_st; split_eqb; destruct fs; cnt_norm;
+        try congruence; try lia; auto.
+      all: eqb_false t x; lia.
+  - intros j x. unfold s0. apply (waits_ext s); simp_st.
+    + destruct (Nat.eqb x t) eqn:E; auto. neq_tac. subst. auto.
+    + destruct (Nat.eqb j t) eqn:E; auto. neq_tac. subst. auto.
+    + destruct (Nat.eqb j t) eqn:E; auto. neq_tac. subst j. auto.
+    + apply (i_waits _ I).
+Qed.
+
+(* E12: thread::dequeue_ready_atomic *)
+Lemma inv1_dequeue : forall s t, Inv1 s -> Inv1 (dequeue s t).
+Proof.
+  intros s t I. unfold dequeue, getth.
+  destruct (th_waitq (s_th s t)) as [w|] eqn:W; auto.
+  constructor.
+  - intros x y. apply (placed_ext2 s); [ .. | apply (i_placed _ I)]; simp_st;
+      repeat match goal with |- context[Nat.eqb ?a ?b] => destruct (Nat.eqb a b) eqn:? end; neq_tac; subst;
+      rewrite ?Nat.eqb_refl; cbn; auto.
+  - intros j x. generalize (i_waits _ I j x). unfold waits. simp_st.
+    destruct (i_waits _ I t w) as [A0 B0]. rewrite W in A0, B0. cbn [opt_eqb] in A0. rewrite Nat.eqb_refl in A0.
+    repeat match goal with |- context[Nat.eqb ?a ?b] => destruct (Nat.eqb a b) eqn:? end; neq_tac; subst;
+      rewrite ?Nat.eqb_refl; cbn; rewrite ?W; cbn [opt_eqb]; rewrite ?Nat.eqb_refl;
+      intros [A B]; (split; [|try tauto; try (intros; exfalso; congruence)]);
+      rewrite ?cnt_remove_same; try (rewrite cnt_remove_other by congruence); try lia; auto.
+    all: try (replace (Nat.eqb w x) with false by (symmetry; apply Nat.eqb_neq; congruence); lia).
+Qed.
